@@ -307,6 +307,9 @@ func main() {
 				`{"prins":["a"],"transID":"t","reqUser":"u","reqIP":"i","reqHost":"h","isFirefighter":false,"isHWKey":true,"isHeadless":false,"isNonce":false,"touchPolicy":1}`,
 				`{"prins":["a"],"transID":"t","reqUser":"u","reqIP":"i","reqHost":"h","isFirefighter":false,"isHWKey":true,"isHeadless":false,"touchPolicy":1,"ver":1}`,
 				`{"prins":["a"],"transID":"t","reqUser":"u","reqIP":"i","reqHost":"h","isFirefighter":"no","isHWKey":true,"isHeadless":false,"isNonce":false,"touchPolicy":1,"ver":1}`,
+				`{"prins":["a"],"transID":"t","reqUser":"u","reqIP":"i","reqHost":"h","isFirefighter":false,"isHWKey":true,"isHeadless":false,"isNonce":false,"touchPolicy":1,"ver":null}`,
+				`{"prins":["a"],"transID":"t","reqUser":"u","reqIP":"i","reqHost":"h","isFirefighter":true,"isHWKey":true,"isHeadless":false,"isNonce":false,"touchPolicy":3,"ver":null}`,
+				`{"prins":["a"],"transID":"t","reqUser":"u","reqIP":"i","reqHost":"h","isFirefighter":false,"isHWKey":true,"isHeadless":false,"isNonce":true,"touchPolicy":1,"ver":"1"}`,
 				"user@host", "\x00\xff", `{"prins":["a"],"transID":"t"`}
 			for i, kid := range bad {
 				c := r.Case("undecodable", i)
